@@ -759,7 +759,7 @@ func (e *htlcEnv) runBlock(dt int64, pending []chain.M, w *chain.TraceWriter) bo
 			// member of a multi-message transaction that failed as a whole (chain.BundlePct):
 			// whatever it did was rolled back; the specification knows no such event and
 			// treats it as a rejection without effect
-			ev["name"] = "TxFailed"
+			ev["_orig"], ev["name"] = ev["name"], "TxFailed"
 		}
 		ev["ok"], ev["panic"] = r.OK, r.Panic
 		ev["mag"] = e.magOf(ev)
